@@ -14,7 +14,10 @@
 #[derive(Clone, Copy, Debug)]
 pub enum Bound {
     Full,
+    /// at most d non-default answers anywhere
     Dev(u32),
+    /// at most d non-default answers, each later one within w choice points of the previous one
+    DevWindow(u32, usize),
 }
 
 pub struct Env {
@@ -62,14 +65,43 @@ pub struct Stats {
 
 /// `run` executes the subject once under the given environment and judges the
 /// complete execution itself (it sees the Env afterwards through its return).
-pub fn explore(bound: Bound, max_paths: u64, mut run: impl FnMut(&mut Env)) -> Stats {
-    let mut stack: Vec<(Vec<u32>, Vec<u64>)> = vec![(vec![], vec![])];
+pub fn explore(bound: Bound, max_paths: u64, run: impl FnMut(&mut Env)) -> Stats {
+    explore_striped(bound, max_paths, 1, 0, run)
+}
+
+/// Like `explore`, but only follows branches whose FIRST non-default answer sits at a choice index congruent to
+/// `stripe` modulo `stripes`: the union over all stripes is exactly the space `explore` covers (the all-default
+/// execution is run by every stripe), which lets one exploration be spread over several workers.
+pub fn explore_striped(bound: Bound, max_paths: u64, stripes: usize, stripe: usize, run: impl FnMut(&mut Env)) -> Stats {
+    explore_horizon(bound, max_paths, stripes, stripe, usize::MAX, run)
+}
+
+/// As `explore_striped`, with a horizon: non-default answers are only placed at choice indices below `horizon`
+/// (the executions themselves still run to completion).
+pub fn explore_horizon(bound: Bound, max_paths: u64, stripes: usize, stripe: usize, horizon: usize, mut run: impl FnMut(&mut Env)) -> Stats {
+    use std::rc::Rc;
+    // a pending branch shares its parent's choice list and tags: (parent run, index of the deviating choice, alternative)
+    struct Pending {
+        parent: Rc<(Vec<u32>, Vec<u64>)>,
+        i: usize,
+        alt: u32,
+    }
+    let mut stack: Vec<Option<Pending>> = vec![None];
     let mut st = Stats::default();
-    while let Some((prefix, ptags)) = stack.pop() {
+    while let Some(item) = stack.pop() {
         if st.paths >= max_paths {
             st.capped = true;
             break;
         }
+        let (prefix, ptags) = match &item {
+            None => (vec![], vec![]),
+            Some(p) => {
+                let mut v = p.parent.0[..p.i].to_vec();
+                v.push(p.alt);
+                (v, p.parent.1[..=p.i].to_vec())
+            }
+        };
+        drop(item);
         let plen = prefix.len();
         let mut env = Env { prefix, prefix_tags: ptags, taken: vec![], nalts: vec![], tags: vec![], diverged: None };
         run(&mut env);
@@ -82,20 +114,27 @@ pub fn explore(bound: Bound, max_paths: u64, mut run: impl FnMut(&mut Env)) -> S
         st.paths += 1;
         st.nodes += (env.taken.len() - plen + 1) as u64;
         st.max_depth = st.max_depth.max(env.taken.len());
+        let nalts = std::mem::take(&mut env.nalts);
+        let parent = Rc::new((std::mem::take(&mut env.taken), std::mem::take(&mut env.tags)));
         // branch on every later choice point (reverse order so that the DFS visits simplest-first alternatives first)
-        for i in (plen..env.taken.len()).rev() {
-            let devs_before = env.taken[..i].iter().filter(|&&c| c != 0).count() as u32;
+        let mut devs_before = parent.0[..plen].iter().filter(|&&c| c != 0).count() as u32;
+        let mut last_dev = parent.0[..plen].iter().rposition(|&c| c != 0);
+        // positions >= plen are all default answers in this run, so the counts above hold for every i >= plen
+        let _ = (&mut devs_before, &mut last_dev);
+        for i in (plen..parent.0.len().min(horizon)).rev() {
             let ok = match bound {
                 Bound::Full => true,
                 Bound::Dev(d) => devs_before + 1 <= d,
+                Bound::DevWindow(d, w) => devs_before + 1 <= d && last_dev.map_or(true, |l| i - l <= w),
             };
             if !ok {
                 continue;
             }
-            for alt in (1..env.nalts[i]).rev() {
-                let mut p = env.taken[..i].to_vec();
-                p.push(alt);
-                stack.push((p, env.tags[..=i].to_vec()));
+            if devs_before == 0 && stripes > 1 && i % stripes != stripe {
+                continue;
+            }
+            for alt in (1..nalts[i]).rev() {
+                stack.push(Some(Pending { parent: parent.clone(), i, alt }));
             }
         }
     }
